@@ -39,7 +39,10 @@ Record cres := mkCRes {
   cr_closed_by_first_pass : bool  (* ... and the server had closed it when Shutdown's first loop iteration was over *)
 }.
 
-Inductive c15case := CRun (cf : cfg) (blocks : list block) (conns : list cres).
+Inductive c15case :=
+| CRun (cf : cfg) (blocks : list block) (conns : list cres)
+(* the harness could not get two agreeing readings of the observables although every goroutine was at rest: not judged *)
+| CUnstable.
 
 (* ---- the scheduler ------------------------------------------------------------------------------------------------------ *)
 Definition held (hs : list (nat * hold)) (c : nat) (h : hold) : bool :=
@@ -118,8 +121,9 @@ Definition settle (cf : cfg) (hs : list (nat * hold)) (s : st) : st :=
   let s3 := settle_threads n cf hs s2 in
   let s4 := tick_iter cf s3 in
   let s5 := settle_threads n cf hs s4 in
-  let s6 := tick_iter cf s5 in
-  settle_threads n cf hs s6.
+  let s6 := settle_threads n cf hs (tick_iter cf s5) in
+  let s7 := settle_threads n cf hs (tick_iter cf s6) in
+  settle_threads n cf hs (tick_iter cf s7).
 
 (* ---- correspondence ----------------------------------------------------------------------------------------------------------- *)
 Definition idle_class (s : st) (r : conn) : Z :=
@@ -160,6 +164,7 @@ Fixpoint replay (cf : cfg) (s : st) (bs : list block) : option st :=
 Definition corr_ok (c : c15case) : bool :=
   match c with
   | CRun cf bs _ => match replay cf init bs with Some _ => true | None => false end
+  | CUnstable => true
   end.
 
 (* ---- the property, judged on what the implementation did ----------------------------------------------------------------------- *)
@@ -189,4 +194,5 @@ Definition prop_ok (c : c15case) : bool :=
          | Some o => if o_sd o =? 2 then forallb2 answered_ok (o_conns o) conns else true
          | None => true
          end
+  | CUnstable => true
   end.
